@@ -830,6 +830,16 @@ def stepLine (st : LSt) (toks : List String) : LSt × List String :=
       if ps = 0 ∨ bs = 0 ∨ ps > 32768 ∨ ps &&& (ps - 1) ≠ 0 ∨ ps * bs > 17179869184 ∨ bs ≥ 2147483648 then (none, [])
       else (some (initSys ps bs t0), [])
     | _, _, _ => (none, [])
+  | ["pool", "xring"] =>
+    -- A fresh `ReadBuf` of this pool used for a read on a descriptor of ANOTHER ring (which has a
+    -- pool of the same shape): buffer group ids are process-wide unique (`static ID`, io.rs:37-39),
+    -- so the other ring has no group with this pool's id and the kernel answers ENOBUFS; the
+    -- unowned `ReadBuf` is dropped with the failed operation and this pool is untouched.
+    match st with
+    | some s =>
+      if s.pool.ps * s.pool.bs ≤ 8388608 ∧ !s.pendingOrder then (st, ["xring err ENOBUFS"])
+      else (st, ["bad-op"])
+    | none => (st, ["bad-op"])
   | _ =>
     match st, parseOp toks with
     | some s, some op => let (s', o) := sysStep s op; (some s', o)
